@@ -11,6 +11,7 @@ namespace Rdp.Gui.Recv
 
 inductive Kind where
   | bitmap (id : Nat)   -- forwarded on the bitmap channel
+  | quiet               -- a PDU the client decodes and ignores (no event): the loop goes on
   | ultimatum           -- MCS disconnect provider ultimatum  → Error::RdpError(Disconnect)
   | badRdp              -- undecodable PDU reported as Error::RdpError
   | badIo               -- undecodable PDU reported as Error::Io (short content)
@@ -47,6 +48,7 @@ def step (fixed : Bool) (s : St) : Option St :=
       if p.len ≤ s.buf then
         match p.kind with
         | .bitmap id => some { s with pdus := rest, buf := s.buf - p.len, delivered := s.delivered ++ [id], pc := .sel }
+        | .quiet => some { s with pdus := rest, buf := s.buf - p.len, pc := .sel }
         | .ultimatum => some { s with pdus := rest, buf := s.buf - p.len, pc := .done }
         | .badRdp => some { s with pdus := rest, buf := s.buf - p.len, pc := .done }
         | .badIo => some { s with pdus := rest, buf := s.buf - p.len, pc := if fixed then .done else .sel }
